@@ -9,6 +9,7 @@ import PRV.Driver.C08
 import PRV.Driver.C08m
 import PRV.Driver.C09
 import PRV.Driver.C10ctl
+import PRV.Driver.Book
 import PRV.Driver.C20
 import PRV.Driver.C11
 import PRV.Driver.C07
@@ -44,6 +45,7 @@ def main (args : List String) : IO UInt32 := do
   | ["monitor", "c09"] => runMonitor C09.monitor; return 0
   | ["monitor", "c10ctl"] => runMonitor C10ctl.monitor; return 0
   | ["model", "c10"] => run C10.machine; return 0
+  | ["model", "book"] => run Book.machine; return 0
   | ["monitor", "c10"] => runMonitor C10.monitor; return 0
   | ["monitor", "c20"] => runMonitor C20.monitor; return 0
   | ["monitor", "c11"] => runMonitor C11.monitor; return 0
